@@ -37,7 +37,9 @@ def reference_placement(sides, items, start_formatted=True):
     slots = []
     for s in sides:
         f, sl, _ = side_state(s)
-        free.append(len(f))
+        # the two blocks of track 20 hold the table and the catalog: never handed out, also when a side that was never
+        # formatted shows them as free
+        free.append(len([b for b in f if b not in (40, 41)]))
         slots.append(sl)
     cur = 0
     placed = {0: [], 1: [], 2: [], 3: []}
@@ -58,7 +60,7 @@ def reference_placement(sides, items, start_formatted=True):
         name, content = it[1], it[2]
         stem, ext, _, _, _ = T.split_source(name)
         kind, flag, sext = D.disk_kind(name)
-        if len(stem) > 8 or len(ext) > 3:
+        if len(stem) > 8 or len(ext) > 3 or not (stem + ext).isascii():
             skipped.append(name)
             continue
         need = blocks_needed(len(content))
@@ -179,7 +181,13 @@ def run_step(ctx, res, stream, sc, mode, verbose, items, pre_raw, clauses, case_
                             break
             new_blocks = {b for sl in new_by_slot if sl not in old_by_slot for b in new_by_slot[sl][5]}
             pb, nb = pre_sides[i][20 * 16 + 1], s[20 * 16 + 1]
+            # the frame clause is about blocks "in use or reserved before the addition"; on a side that was never formatted the
+            # table shows the two blocks of track 20 (the table and the catalog themselves) as free, and the first file stored
+            # there makes them reserved (C05: they are never handed to a file): that change, and only that one, is admitted
+            never_formatted = pre_tab[40] == 0xFF and pre_tab[41] == 0xFF
             for j in range(256):
+                if never_formatted and want and (j - 1) in (40, 41) and nb[j] == 0xFE:
+                    continue
                 if pb[j] != nb[j] and (j - 1) not in new_blocks:
                     V("frame", "a byte of the allocation table not describing an added file changed", {"side": i, "offset": j, "was": pb[j], "now": nb[j]})
                     break
@@ -395,9 +403,13 @@ def gen_items(rng, used, shape=None, free_hint=157):
     if rng.random() < 0.12:
         # refused before anything is read from the side: name longer than 8, extension longer than 3
         items.insert(rng.randrange(len(items) + 1), ("file", rng.choice(TOO_LONG), T.content_for(rng, rng.choice([0, 1, 300]))))
+    if rng.random() < 0.10:
+        # refused as well: the catalog stores 7-bit names
+        items.insert(rng.randrange(len(items) + 1), ("file", rng.choice(NOT_ASCII), T.content_for(rng, rng.choice([0, 1, 300]))))
     return items
 
 
+NOT_ASCII = ["\u00e9.dat", "na\u00efve.bas", "\u00f1", "a.b\u00e9", "caf\u00e9.bin", "\u0416.txt", "x\u20ac.bas,a", "\U0001F600.dat"]
 TOO_LONG = ["ninechars.bas", "toolongname.bin", "a.abcd", "longextension.text", "x.bas,ab", "123456789", "noext_but_long", "ab.c.defg"]
 
 
